@@ -126,7 +126,14 @@ func splitFunc(ctx *flags.Context) error {
 
 			for i, tail := range splits[1:] {
 				head := splits[i]
-				sub := gts.Slice(seq, head, tail)
+				var sub gts.Sequence
+				if top == gts.Circular && head == tail {
+					// every region starts at the same position: the only piece
+					// is the whole circle opened there.
+					sub = gts.Rotate(seq, -head)
+				} else {
+					sub = gts.Slice(seq, head, tail)
+				}
 				sub = gts.WithTopology(sub, gts.Linear)
 				if _, err := writer.WriteSeq(sub); err != nil {
 					return ctx.Raise(err)
